@@ -41,6 +41,8 @@ def cases(tier, seed):
             out.append(('fresh', fam, th, tier))
         out.append(('history', fam, 0.0, tier))
     out.append(('independence', 'independence', 0.0, tier))
+    for fam_ in ('clayton', 'frank', 'gumbel'):
+        out.append(('fitted-tau0', fam_, 0.0, tier))
     return out
 
 
@@ -228,6 +230,34 @@ def run_case(case):
         for a, b in zip(y, v):
             r.state((fam, 0, float(a), float(b)))
         r.outcome('independence')
+        return r
+
+    if kind == 'fitted-tau0':
+        from copulas.bivariate.base import Bivariate
+        X0 = np.array([[0.2, 0.4], [0.4, 0.8], [0.6, 0.2], [0.8, 0.6]])          # 3 concordant, 3 discordant pairs
+        cop = Bivariate(copula_type=fam)
+        try:
+            cop.fit(X0.copy())
+        except Exception as e:
+            r.outcome(f'{fam}:fit-on-tau0-refused:{type(e).__name__}')
+            r.hit('fitted-tau0')
+            return r
+        try:
+            u = np.asarray(cop.percent_point(y.copy(), v.copy()), float)
+            hv = np.asarray(cop.partial_derivative(np.column_stack([u, v])), float)
+            r.tr(2)
+            r.ev(len(y))
+            bad = ~(np.abs(hv - y) <= 1e-6)
+            if bad.any():
+                i = int(np.nonzero(bad)[0][0])
+                r.violation(f'{sig}:fitted-tau0:not-a-root', f'{fam} fitted on a table with Kendall tau = 0 (theta={cop.theta!r}, '
+                            f'tau={cop.tau!r}): percent_point(y={y[i]}, v={v[i]})={u[i]!r} but partial_derivative(u,v)={hv[i]!r}',
+                            case=case)
+        except Exception as e:
+            # (a Clayton with theta = 0 refuses every query with NotFittedError on the unchanged tree)
+            r.outcome(f'{fam}:query-refused:{type(e).__name__}')
+        r.nontriv()
+        r.hit('fitted-tau0')
         return r
 
     if kind == 'history':
